@@ -776,7 +776,10 @@ pub fn run(ctx: &Ctx) -> i32 {
     );
     if machinery_failed {
         eprintln!("MACHINERY-ERROR: some shards were not completed");
-        return 2;
+        // violations already found and printed stand; without any, an incomplete sweep is no verdict
+        if code == 0 {
+            return 2;
+        }
     }
     code
 }
